@@ -8,7 +8,7 @@ NOTES = {
          "exact sub-flows assumed (C02/C03/C12); convergence of the floating-point trajectory and adaptive step/order control not decided; WHFast512 not compiled"),
  "C02": ("direct gravity routines and jerk: per-pair body contracts + iteration-space obligations (accumulation rule) against the softened Newtonian pair sum incl. ghost images at index x box edge; MERCURIUS/TRACE parts add up; tree node contract; every integrator establishes its own pair filter before its first force evaluation",
          "doubles as reals; accumulation rule trusted; tree walk recursion and multipole bound not decided; pair-filter contract is structural (write summaries)"),
- "C03": ("Stumpff/Stiefel functions (series, quadrupling, reduction), Newton fixed point => universal Kepler equation, f-g update (Wronskian, energy, angular momentum), hyperbolic bisection bracket, mass parameter per coordinate system and caller, coordinate cache follows N, proved on the real code; plus a labelled bounded native sweep of one WHFast step against the closed-form solution",
+ "C03": ("Stumpff/Stiefel functions (series, quadrupling, reduction), Newton fixed point => universal Kepler equation, f-g update (Wronskian, energy, angular momentum), hyperbolic bisection bracket, mass parameter per coordinate system and caller, coordinate cache follows N, proved on the real code; the kick skips exactly the pair the Kepler step solves (shared with C02), argument reduction exits for non-finite arguments and reaches the series range for finite ones (structural); plus labelled bounded native sweeps of one WHFast step against the closed-form solution and of termination for long hyperbolic steps",
          "doubles as reals; exit-with-root of the iterations assumed; termination and NaN/overflow in floating point not decided by proof (the bounded sweep reports one known finding: hyperbolic long steps); WHFast512 not compiled"),
  "C04": ("merge conserves mass/momentum/COM; diagnostics equal their definitions; COM steps; pair sets and Sum m a = 0 of the force routines incl. MERCURIUS/TRACE parts (shared with C02), Kepler mass parameters (shared with C03), COM drift of unsynchronised WHFast/SABA (shared with C09); TRACE restores the centre of mass on a redone step; every integrator's part1 sets its own pair filter (shared with C02)",
          "doubles as reals; size of the energy error not decided"),
@@ -20,22 +20,22 @@ NOTES = {
          "FILE model: prefix truncation only; identity of accepted snapshots with the uninterrupted run is C06"),
  "C08": ("reb_simulation_integrate_raw / reb_check_exit state machine over the reals for a per-step contract (exact finish, no backwards time, dt restored, no-op at t==tmax, status precedence, dt_last_done reset); the step contract itself proved on the real IAS15 / BS controllers and the real MERCURIUS / TRACE part2 (sign of dt kept, min_dt/max_dt, sub-steps never pass t+dt)",
          "doubles as reals; floating-point coincidences at tmax and termination of adaptive loops not decided"),
- "C09": ("safe mode == unsafe + synchronize at operator-word level by induction over steps (base + step lemma on words extracted from the real code) for WHFast, SABA, EOS, encounter-free MERCURIUS; sync idempotent; keep_unsynchronized restores the cached coordinates of every particle (word level and memory level); coordinate cache invalidated whenever N changed; step length changes only in a synchronised state; getSimulation decision table (exhaustive)",
+ "C09": ("safe mode == unsafe + synchronize at operator-word level by induction over steps (base + step lemma on words extracted from the real code) for WHFast, SABA, EOS, encounter-free MERCURIUS; sync idempotent; keep_unsynchronized restores the cached coordinates of every particle (word level and memory level); coordinate cache invalidated whenever N changed; step length changes only in a synchronised state; getSimulation decision table (exhaustive); WHFast part2 with variational particles leaves the state after the kernel with the variational centre of mass at the end of the step",
          "merge laws of exact flows assumed; rounding differences not decided; two known findings (corrector2 inverse, keep_unsynchronized with exact finish)"),
  "C10": ("JANUS step(-dt) o step(dt) = id on the integer state (floating point uninterpreted + IEEE oddness); integer state rebuilt exactly when requested or when N changed; symmetric schemes palindromic in synchronized and unsynchronized mode; force evaluation a pure function of positions and of the integrator's own pair filter; Kepler solver bracket for both signs of dt; SEI cache of the current dt",
          "IEEE oddness/commutativity axioms; int64 overflow not modelled; size of the rounding error of non-JANUS round trips not decided"),
- "C11": ("orbital element <-> Cartesian maps: rejections, definedness, defining relations, anomaly conversions; twin front ends: same accept/reject tables, same prograde/retrograde angle conversions (inverse of the reader's convention), same dimensional conversions (a from P, M from T), arguments reach the parameter of the same name, Python aliases folded before use, masses final before a conversion uses them",
+ "C11": ("orbital element <-> Cartesian maps: rejections, definedness, defining relations, anomaly conversions; twin front ends: same accept/reject tables, same prograde/retrograde angle conversions (inverse of the reader's convention), same dimensional conversions (a from P, M from T), arguments reach the parameter of the same name, Python aliases folded before use, masses final before a conversion uses them; pericentre passage |n|(t-T) = M for bound and unbound orbits",
          "doubles as reals; trig axioms per occurrence; Newton convergence and the omega,f round trip not decided; parser contracts are extracted syntactically and compared exactly"),
  "C12": ("all coordinate transformations: forward definitions, slot 0 = (M, COM), inverses recover inputs, variants agree, memory safety; symbolic N, N_active", "doubles as reals; non-zero prefix masses as stated preconditions"),
- "C13": ("collision search predicates (direct, line both signs of dt, tree leaf test), resolve algebra (merge, hard sphere), index fix-up after removals for sorted / unsorted / tree / hybrid-integrator removal, tree updated before it is walked",
+ "C13": ("collision search predicates (direct, line both signs of dt, tree leaf test), resolve algebra (merge, hard sphere), index fix-up after removals for sorted / unsorted / tree / hybrid-integrator removal, tree updated before it is walked and completed with the particles that are in no leaf yet",
          "doubles as reals; recursive tree search not decided"),
- "C14": ("abstract sequence view of add/remove/hash lookup incl. arbitrary stale lookup tables, N_active rule and N_active <= N - N_var, memory safety, Python container index logic",
+ "C14": ("abstract sequence view of add/remove/hash lookup incl. arbitrary stale lookup tables, N_active rule and N_active <= N - N_var, memory safety, lookup table well formed across remove_all, Python container index logic",
          "qsort contract assumed; integers mathematical"),
- "C15": ("boundary wrap loops, open-boundary removal, ghost boxes, root-cell index arithmetic, tree local lemmas; a tree exists whenever a module uses it, also after load/copy (shared with C05); collision search updates the tree before walking it",
+ "C15": ("boundary wrap loops, open-boundary removal, ghost boxes, root-cell index arithmetic, tree local lemmas; a tree exists whenever a module uses it, also after load/copy (shared with C05); collision search updates the tree before walking it; update_tree inserts the particles that are in no leaf yet",
          "doubles as reals; global tree invariant for arbitrary depth not decided"),
  "C16": ("variational force loops equal the symbolic derivative of the softened pair-force specification (1st and 2nd order, accumulation rule); all 65 derivative constructors equal the sympy derivative of the real forward map; add_variation / rescale (incl. the IAS15 predictor state) / MEGNO bookkeeping; WHFast words refresh variational positions before every kick; Stumpff cs recurrences of the tangent map; frame shifts apply their derivative; Python dispatch",
          "doubles as reals; Kepler-Pal solver through its summary contract; tangent map of the Kepler solver beyond its Stumpff functions, MEGNO->2 not decided"),
- "C17": ("reb_particle_diff differs iff a non-pointer member differs; compare-mode flag semantics of reb_binary_diff for arbitrary field sequences incl. both passes and full element loops; no persisted array embedding addresses is compared byte-wise; copy reads the source only through the serialiser, which writes every descriptor in every state (shared with C05); delta stream of incremental snapshots well formed (shared with C06)",
+ "C17": ("reb_particle_diff differs iff a non-pointer member differs; compare-mode flag semantics of reb_binary_diff for arbitrary field sequences incl. both passes and full element loops; no persisted array embedding addresses is compared byte-wise; copy reads the source only through the serialiser, which writes every descriptor in every state (shared with C05); delta stream of incremental snapshots well formed (shared with C06); every descriptor addresses the member it names (shared with C05)",
          "byte content uninterpreted; evolution of a copy argued from C05 only"),
  "C18": ("exhaustive per-member comparison of clang record layouts with the ctypes classes, option tables vs C enums, every named function option references the C function of that name, setter/getter round trips, Variation.lrescale addresses its own configuration, Variation.particles is a view of the current block, no definition permutes the parameters of its prototype",
          "x86-64 layout; alias table listed as assumptions"),
